@@ -358,3 +358,13 @@ Check band_pivot_legacy_refuted_exact :
   @band_solve AQ wit_q [q 0 1; q 1 1] = Ok [q 1 1; q 1 1] /\
   @band_det_legacy AQ wit_q = Panic DivZero /\ @band_det AQ wit_q = Ok (q (-1) 1).
 Print Assumptions band_pivot_legacy_refuted_exact.
+
+(* ---- tie to the source by proof (package r2c): the functions regenerated from /repo/src on this run by the Rust-subset ->
+   Gallina translator (driver/rust2coq.py -> gen/Src*.v) are equal, for all arguments, to the hand-written model functions
+   the theorems above are about (Proofs/SrcEq*.v).  A change of a loop bound, index, operator or statement order in the
+   source breaks the corresponding src_<function> lemma and with it this obligation. *)
+From OV Require Proofs.SrcEqBanded.
+Theorem model_is_source_C04_Banded : forall A : Arith, @SrcEqBanded.model_is_source_Banded A.
+Proof. intros A. exact SrcEqBanded.model_is_source_Banded_lemma. Qed.
+Check model_is_source_C04_Banded : forall A : Arith, @SrcEqBanded.model_is_source_Banded A.
+Print Assumptions model_is_source_C04_Banded.
